@@ -153,6 +153,12 @@ def gen_cases(chk):
                     n *= v
                 vals = [base + R if i % 2 == 0 else base for i in range(n)]
                 vals[n // 2] = base + R // 2
+                if len(t) == 1:
+                    # the same range as plateaus of eight in a longer array: only the jumps are stored exactly, so the kernel's stream stays below the
+                    # raw size (for the 8..32-bit types the short alternating arrays above come back as verbatim copies, which bypass the width)
+                    pv = [base + R if (i // 8) % 2 == 0 else base for i in range(240)]
+                    cases.append("rtr %x %s %s 0 %s %s 0 szMode=SZ_BEST_SPEED;quantization_intervals=4 x:%s" % (ty, tup5((240,)), tup5((240,)), dbits(1.0), dbits(1e-3),
+                                                                                                            ",".join("%x" % enc(ty, v) for v in pv)))
                 cases.append("rtr %x %s %s 0 %s %s 0 szMode=SZ_BEST_SPEED;quantization_intervals=4 x:%s" % (ty, tup5(t), tup5(t), dbits(1.0), dbits(1e-3),
                                                                                                         ",".join("%x" % enc(ty, v) for v in vals)))
     # the 8- and 16-bit kernels clamp reconstructions to the type's range (every predictor position has its own clamp):
